@@ -1,1 +1,64 @@
-fn main(){}
+//! CLI harness: C05 (on-busy policy), C08 (quit), C12 (explicit filters vs ignore flags).
+
+mod c05;
+
+use dex::{
+	explore::{Bounds, Exec, Point},
+	orch::{self, Harness, Obs, Tier},
+};
+
+struct C05;
+
+impl Harness for C05 {
+	type Sc = c05::Sc;
+	fn name(&self) -> &'static str {
+		"h-cli/on-busy"
+	}
+	fn property(&self) -> &str {
+		"C05"
+	}
+	fn scenarios(&self, tier: Tier) -> Vec<(c05::Sc, Vec<Bounds>)> {
+		c05::scenarios(tier)
+	}
+	fn run(&self, sc: &c05::Sc, bounds: Bounds, prefix: &[Point]) -> Result<Exec<Obs>, String> {
+		c05::run(sc, bounds, prefix)
+	}
+	fn replay_every(&self, tier: Tier) -> u64 {
+		match tier {
+			Tier::Quick => 256,
+			Tier::Thorough => 4096,
+		}
+	}
+}
+
+fn main() {
+	let argv: Vec<String> = std::env::args().skip(1).collect();
+	let args = orch::parse_args(&argv);
+	let prop = args.rest.first().cloned().unwrap_or_else(|| {
+		eprintln!("usage: h-cli <C05|C08|C12> [--tier quick|thorough] [--replay file]");
+		std::process::exit(2);
+	});
+	let assumptions = vec![
+		"atomic step = one task poll on a current-thread tokio runtime (tokio 1.43.0 with the explorer seams)".to_string(),
+		"the CLI's real argument parsing, normalisation and make_config action handler run in-process (cfg(watchexec_verif) entry points)".to_string(),
+		"the supervised command is a SimChild, the filesystem watcher a FakeWatcher; virtual time, 1 tick = 10 ms".to_string(),
+	];
+	let code = match prop.as_str() {
+		"C05" => {
+			let h = C05;
+			if args.rest.get(1).map(String::as_str) == Some("--count") {
+				println!("{} scenarios", h.scenarios(args.tier).len());
+				return;
+			}
+			let rule = "every mode / option variant x every ENV order of change events, command exits and ticks, times every SELECT/SCHED/PREEMPT deviation set within the pass bound (FIFO and LIFO base policies, anchored windows in the thorough tier); non-trivial = at least one run was started; distinct = distinct observation logs";
+			let c = orch::dex_main(&h, &args, &[prop], assumptions, rule);
+			let _ = std::fs::remove_dir_all(c05::scratch_dir());
+			c
+		}
+		_ => {
+			eprintln!("unknown property {prop}");
+			2
+		}
+	};
+	std::process::exit(code);
+}
